@@ -4,7 +4,9 @@ package c06
 
 import (
 	"fmt"
+	"reflect"
 	"runtime/debug"
+	"strings"
 	"testing"
 
 	"github.com/CrowdStrike/csproto"
@@ -121,7 +123,12 @@ func runC06(t *rapid.T, w *rep.Worker) {
 			}
 		}()
 		for i, n := 0, rapid.IntRange(1, 5).Draw(t, "nprefix"); i < n; i++ {
-			switch rapid.IntRange(0, 5).Draw(t, "prefixop") {
+			switch rapid.IntRange(0, 6).Draw(t, "prefixop") {
+			case 6:
+				if d := shareBackingArray(t, dirty); d != "" {
+					step("destination: %s", d)
+					w.Fault("destination_fields_share_storage")
+				}
 			case 0, 1:
 				corpus.Populate(t, corpus.Wrap(dirty), 0)
 				step("destination: populate -> %.120s", corpus.Digest(dirty))
@@ -201,6 +208,59 @@ func clip(b []byte) []byte {
 		return b[:40]
 	}
 	return b
+}
+
+// shareBackingArray makes two repeated fields of the same Go type in the destination's struct refer to one
+// backing array with spare capacity (legal, if unusual: a program may fill both from one slice). A decoder
+// that re-uses the destination's storage instead of replacing it then lets one field overwrite the other.
+func shareBackingArray(t *rapid.T, m any) string {
+	rv := reflect.ValueOf(m)
+	if rv.Kind() != reflect.Pointer || rv.Elem().Kind() != reflect.Struct {
+		return ""
+	}
+	st := rv.Elem()
+	byType := map[reflect.Type][]int{}
+	var order []reflect.Type
+	for i := 0; i < st.NumField(); i++ {
+		f := st.Type().Field(i)
+		if !f.IsExported() || f.Type.Kind() != reflect.Slice || f.Type.Elem().Kind() == reflect.Uint8 || strings.HasPrefix(f.Name, "XXX_") {
+			continue
+		}
+		if _, ok := byType[f.Type]; !ok {
+			order = append(order, f.Type)
+		}
+		byType[f.Type] = append(byType[f.Type], i)
+	}
+	var cands []reflect.Type
+	for _, ty := range order {
+		if len(byType[ty]) >= 2 {
+			cands = append(cands, ty)
+		}
+	}
+	if len(cands) == 0 {
+		return ""
+	}
+	ty := cands[rapid.IntRange(0, len(cands)-1).Draw(t, "sharetype")]
+	idx := byType[ty]
+	a := idx[rapid.IntRange(0, len(idx)-1).Draw(t, "sharea")]
+	b := idx[rapid.IntRange(0, len(idx)-1).Draw(t, "shareb")]
+	if a == b {
+		b = idx[(rapid.IntRange(0, len(idx)-2).Draw(t, "shareb2")+1+indexOf(idx, a))%len(idx)]
+	}
+	n := rapid.IntRange(0, 3).Draw(t, "sharelen")
+	shared := reflect.MakeSlice(ty, n, n+8)
+	st.Field(a).Set(shared)
+	st.Field(b).Set(shared)
+	return fmt.Sprintf("fields %s and %s now share one backing array (len %d, cap %d)", st.Type().Field(a).Name, st.Type().Field(b).Name, n, n+8)
+}
+
+func indexOf(xs []int, x int) int {
+	for i, v := range xs {
+		if v == x {
+			return i
+		}
+	}
+	return 0
 }
 
 func TestC06Hist(t *testing.T) {
